@@ -153,11 +153,11 @@ PROPS = {
         assumptions=[ROCKS_ASSUMPTION, "goroutines the code spawns itself (SaveChanges' writer) are not scheduled tasks: they run while their parent waits and every other task is parked", "writer preference of sync.RWMutex is not modelled (more schedules than the runtime allows, none that a correct program may exclude)"],
     ),
     "C20": dict(
-        level="exploration", components=SCHED_COMPONENTS("core/logging MemLogger/MemCore + real zap"), sched=True, race=True,
+        level="exploration", components=SCHED_COMPONENTS("core/logging MemLogger/MemCore + real zap"), sched=True, race=True, env={"GOMAXPROCS": "1"},
         quick=dict(runs=12000, race_runs=4000, budget_s=60), thorough=dict(runs=700000, race_runs=200000, budget_s=1500),
-        rule="real MemLogger/MemCore with real zap loggers. Sequential histories (a fifth of the runs): derive loggers (core.With and zap Logger.With, at different times, nested) and write through any of them, totals below, at (1023/1024/1025) and far above the capacity (up to 3000 per burst); after checks and at the end GetLogs must equal the last min(n,1024) written ids newest first and WriteLogs must list exactly those ids in that order (entries are copied out immediately: the buffer reuses entry objects). Scheduled histories (instrumented copy, yield points in inmemory_logger.go): a sequential prefix, then 2-4 tasks writing through root and derived loggers, deriving further loggers and taking GetLogs snapshots; oracle after the join: no duplicate, exactly min(n,1024) entries, per task the retained entries are a suffix of its writes in reverse program order, pre-task entries are older than all task entries and only retained if no task entry was dropped (= the most recent entries of some linearisation); snapshots: no duplicate, per-task order; -race build under the same schedules: any report with both accesses inside the module is a violation. Non-trivial: >= 2 writes and a derived logger / a context switch",
+        rule="real MemLogger/MemCore with real zap loggers. Sequential histories (a fifth of the runs): derive loggers (core.With and zap Logger.With, at different times, nested) and write through any of them, totals below, at (1023/1024/1025) and far above the capacity (up to 3000 per burst); after checks and at the end GetLogs must equal the last min(n,1024) written ids newest first and WriteLogs must list exactly those ids in that order (entries are copied out immediately: the buffer reuses entry objects). Scheduled histories (instrumented copy, yield points in inmemory_logger.go): a sequential prefix, then 2-4 tasks writing through root and derived loggers, deriving further loggers, taking GetLogs snapshots and calling WriteLogs into private buffers while the others write and derive (every line of such a dump must be one entry with its own id as message and as field, and the listed ids obey the snapshot rules); oracle after the join: no duplicate, exactly min(n,1024) entries, per task the retained entries are a suffix of its writes in reverse program order, pre-task entries are older than all task entries and only retained if no task entry was dropped (= the most recent entries of some linearisation); snapshots: no duplicate, per-task order; -race build under the same schedules: any report with both accesses inside the module is a violation. Non-trivial: >= 2 writes and a derived logger / a context switch",
         state_measure="distinct interleavings (scheduled runs) / (number of loggers, wrapped?, total mod 7) (sequential runs)",
-        assumptions=["readers of GetLogs receive pointers to entry objects that the ring reuses; the harness copies the messages out immediately and a report that involves the harness's own read of such an entry is not counted (DESIGN.md section 7, C20)"],
+        assumptions=["the scheduled workers run with GOMAXPROCS=1 (only one task runs at a time anyway): zap's encoder buffers come from a sync.Pool whose reuse pattern is per-P, and with one P a use of a buffer after it was returned to the pool replays; a race report whose only in-module frame is the harness's own read of an entry is not counted"],
     ),
     "C15": dict(
         level="exploration", components={"real": ["core/util node codecs (CreateNode, Leaf/Full/Extension Decode, OriginTracker), PNodeDB read paths, dead-node record decoding via PruneBelowVersion", "core/util/wmpt DeserializeNode, Deserialize (path export), VerifyBlockProof, read paths of a reloaded trie"], "stub": MPT_COMPONENTS["stub"] + WMPT_COMPONENTS["stub"]},
